@@ -7,7 +7,8 @@ REPO = os.environ.get("VERIF_REPO", "/repo")
 BUILD = os.path.join(ROOT, "build")
 SPEC = os.path.join(ROOT, "spec")
 HC = os.path.join(ROOT, "harness", "c")
-EVID = os.path.join(ROOT, "evidence")
+# evidence describes /repo; runs redirected to another tree (seeded changes, mutants) write elsewhere
+EVID = os.path.join(ROOT, "evidence") if os.path.realpath(REPO) == "/repo" else os.path.join(BUILD, "evidence_alt")
 GUARD = "LHASA_VERIF"
 TLA_CP = "/opt/veriftools/tla/tla2tools.jar:/opt/veriftools/tla/CommunityModules-deps.jar"
 NCPU = os.cpu_count() or 4
